@@ -23,7 +23,7 @@ CLASS_OF_KIND = {
     'svh_validation': 'VALIDATION_ERROR', 'undefined_symbol': 'VALIDATION_ERROR',
     'svh_hard': 'HARD_ERROR', 'sh_hard': 'HARD_ERROR', 'pfh_hard': 'HARD_ERROR', 'eh_hard': 'HARD_ERROR',
     'raise_hard': 'HARD_ERROR', 'raise_exc': 'INTERNAL_ERROR', 'pfh_fail': 'FAIL',
-    'parse_exception': 'SYNTAX_ERROR',
+    'parse_exception': 'SYNTAX_ERROR', 'exe_input_report': 'HARD_ERROR',
 }
 
 PHASE_OF_PREFIX = {'c': 'conf', 's': 'setup', 'b': 'before-assert', 'a': 'assert', 'l': 'cleanup'}
@@ -82,6 +82,7 @@ def build():
     from exactly_lib.symbol.sdv_structure import SymbolReference
     from exactly_lib.test_case.hard_error import HardErrorException
     from exactly_lib.test_case.phases.act.actor import Actor, ActionToCheck, ParseException
+    from exactly_lib.test_case.phases.act.adv_w_validation import AdvWValidation
     from exactly_lib.test_case.phases.assert_ import AssertPhaseInstruction
     from exactly_lib.test_case.phases.before_assert import BeforeAssertPhaseInstruction
     from exactly_lib.test_case.phases.cleanup import CleanupPhaseInstruction
@@ -160,9 +161,27 @@ def build():
         def validate_post_setup(self, environment):
             return svh_result(fire(self.ident, 'post_setup'))
 
+    class _FaultyStdin(AdvWValidation):
+        """ATC execution input whose validation fails: the fault point of the step act/validate-exe-input."""
+
+        def validate(self):
+            f = fire('act', 'exe_input')
+            if f is None:
+                return None
+            raise_common(f)
+            if f['kind'] == 'exe_input_report':
+                return msg()
+            raise kernel.HarnessAbort('fault kind %s not applicable to act validate-exe-input' % f['kind'])
+
+        def resolve(self, environment):
+            raise kernel.HarnessAbort('the faulty stdin must never be resolved: its validation fails')
+
     class SetupFault(_WithValidation, SetupPhaseInstruction):
         def main(self, environment, settings, os_services, settings_builder):
-            return sh_result(fire(self.ident, 'main', settings_view(environment, settings)))
+            r = sh_result(fire(self.ident, 'main', settings_view(environment, settings)))
+            if ('act', 'exe_input') in kernel.cur().faults:
+                settings_builder.stdin = _FaultyStdin()
+            return r
 
     class BeforeAssertFault(_WithValidation, BeforeAssertPhaseInstruction):
         def main(self, environment, settings, os_services):
